@@ -187,6 +187,7 @@ type FuncRun struct {
 	scoutingHead *ssa.BasicBlock
 	backStates []*State
 	assumedOrder []string
+	constGlobals map[string]string
 	curInstr string
 	addrLog    map[string][]addrWrite
 	cellLog    map[cellKey][]Val
@@ -464,6 +465,11 @@ func (fr *FuncRun) freshHeap(h string) string {
 	v := fr.fresh(fr.w.heapSorts[h], h)
 	for _, ax := range fr.w.HeapWF(h, v, fr.allocTop) {
 		fr.emit(ax)
+	}
+	for g, gh := range fr.constGlobals {
+		if gh == h {
+			fr.emit(fmt.Sprintf("(assert (= (select %s %s) (select %s_0 %s)))", v, g, h, g))
+		}
 	}
 	return v
 }
